@@ -46,13 +46,15 @@ CHECKS = {
 
 CHECKS['C19'] = {
     'engine': 'V',
-    'technique': 'Verus contracts on get_type_layout / has_same_offsets against independent HLSL and Metal ABI spec functions',
-    'level_text': 'Unbounded deductive proof (Verus) on the verbatim text of get_type_layout and has_same_offsets: for every type registry with acyclic by-value containment '
-                  'the computed (size, alignment) equals the HLSL structured-buffer resp. Metal ABI spec function (incl. struct tail padding, vec3 = 4 scalars on Metal), and '
-                  'has_same_offsets answers true only if every struct member offset and array stride agrees recursively under both ABIs.',
-    'level_note': 'Assumed: get_type_layer / get_underlying_type_id getters, u32::next_multiple_of and next_power_of_two contracts, ABI rules as written in the spec functions '
-                  '(DXC C-like scalar alignment; MSL spec 2.2/2.3). Preconditions not proved of the typer: acyclic containment, vector lengths 1..4, sizes < 2^24, no literal/template types inside '
-                  'buffer elements. Termination of the recursion is not verified (exec_allows_no_decreases_clause). check_layout itself (which types are checked, size comparison) is being added.',
+    'technique': 'Verus contracts on check_layout / get_type_layout / has_same_offsets against independent HLSL and Metal ABI spec functions',
+    'level_text': 'Unbounded deductive proof (Verus) on the verbatim text of check_layout, get_type_layout and has_same_offsets: for every module with acyclic by-value containment '
+                  'the computed (size, alignment) equals the HLSL structured-buffer resp. Metal ABI spec function (struct tail padding, vec3 = 4 scalars on Metal), has_same_offsets answers true only if every '
+                  'struct member offset and array stride agrees recursively, and check_layout returning Ok implies that every structured-buffer element type and every typed load/store element type has '
+                  'equal padded size and agreeing field offsets under both ABIs; a size-mismatch rejection reports the true padded sizes.',
+    'level_note': 'Assumed: registry getters (get_type_layer, get_underlying_type_id, function registry getters), u32::next_multiple_of / next_power_of_two contracts, HashSet key model for TypeId, '
+                  'the ABI rules as written in the spec functions (DXC C-like scalar alignment; MSL spec 2.2/2.3). Preconditions not proved of the typer: acyclic containment, vector lengths 1..4, sizes < 2^24, '
+                  'no literal/template types inside buffer elements, typed load/store intrinsics carry exactly one type argument. Termination of the two recursive functions is not verified '
+                  '(exec_allows_no_decreases_clause). Rewrite N4 (for-loop desugaring, because Verus for-loops do not support `continue`) is applied to two loops of check_layout.',
 }
 
 CHECKS['C14'] = {
